@@ -54,6 +54,9 @@ def logStream (ms : Option Nat) (l : List Nat) : List Nat :=
 
 inductive Op where
   | resolve (matching : Nat)  -- resolveMatch for a newly opened stream that `matching` local directives match
+  | resolveH (takes : List Bool) -- resolveMatch for a stream that `takes.length` local directives match, whose
+                              -- handlers answer `AddValue` in visiting order: `true` = took the value, `false` =
+                              -- refused it (resolver context cancelled / directive released)
   | newNil                    -- NewSolicitMountedStream(nil)
   | newErr                    -- NewSolicitMountedStreamWithErr(err)
   | accept (w : Nat)          -- AcceptMountedStream on value w (one critical section)
@@ -64,6 +67,13 @@ def step (s : State) : Op → State × Res
   | .resolve k =>
     -- one value around the stream, emitted to each of the k matching directives; when nobody
     -- takes it (k = 0) resolveMatch closes it: the stream is closed and the value carries the error
+    ({ s with wrappers := s.wrappers ++ [⟨some s.nextStream, k == 0, false⟩],
+              nextStream := s.nextStream + 1,
+              closed := if k == 0 then s.nextStream :: s.closed else s.closed }, .created 1 k)
+  | .resolveH takes =>
+    -- `delivered` is true iff ANY handler took the value (`if _, ok := AddValue(sms); ok { delivered = true }`):
+    -- only the NUMBER of handlers that took it matters, not their position in the (map-iteration) order
+    let k := takes.count true
     ({ s with wrappers := s.wrappers ++ [⟨some s.nextStream, k == 0, false⟩],
               nextStream := s.nextStream + 1,
               closed := if k == 0 then s.nextStream :: s.closed else s.closed }, .created 1 k)
